@@ -27,8 +27,16 @@ impl FromStr for ArgColor {
 }
 
 #[derive(Parser, Debug)]
-#[clap(name = "daacfind", about = "A program to find patterns in files.")]
+#[clap(
+    name = "daacfind",
+    about = "A program to find patterns in files.",
+    disable_help_flag = true
+)]
 struct Args {
+    /// Prints help information.
+    #[clap(long, action = clap::ArgAction::Help)]
+    help: Option<bool>,
+
     /// Match patterns separated with new lines.
     #[clap(short)]
     patterns: Option<String>,
